@@ -1,9 +1,1354 @@
 (* Lemmas about the Logbook / Statistics model (Model/C18_Logbook.v). *)
-From Coq Require Import List ZArith Bool Lia.
-From DV Require Import Base.PyList Model.C18_Logbook.
+From Coq Require Import List ZArith Bool Lia ZifyBool Sorting.Sorted Permutation.
+From DV Require Import Base.PyList Base.C18_Lists Model.C18_Logbook.
 Import ListNotations.
 Local Open Scope Z_scope.
 
-Lemma st_compile_spec {A B C} (s : stats A B C) data :
-  st_compile s data = map (fun nf => (fst nf, snd nf (map (s_key s) data))) (s_funs s).
+(* ------------------------------------------------------------------------- *)
+(* induction over the chapter tree                                            *)
+(* ------------------------------------------------------------------------- *)
+Section LbInd.
+  Variable P : lb -> Prop.
+  Hypothesis H : forall rs bf cs h g, Forall (fun kc => P (snd kc)) cs -> P (LB rs bf cs h g).
+  Fixpoint lb_ind' (l : lb) : P l :=
+    match l with
+    | LB rs bf cs h g =>
+        H rs bf cs h g
+          ((fix go (cl : list (name * lb)) : Forall (fun kc => P (snd kc)) cl :=
+              match cl with
+              | [] => Forall_nil _
+              | kc :: r => Forall_cons kc (lb_ind' (snd kc)) (go r)
+              end) cs)
+    end.
+End LbInd.
+
+(* ------------------------------------------------------------------------- *)
+(* dictionaries                                                               *)
+(* ------------------------------------------------------------------------- *)
+Section DictLemmas.
+  Context {V : Type}.
+  Implicit Types (d : list (name * V)).
+
+  Lemma lookup_dict_set_eq k v d : lookup k (dict_set k v d) = Some v.
+  Proof.
+    induction d as [|[k' v'] r IH]; cbn; [now rewrite Z.eqb_refl|].
+    destruct (k =? k') eqn:E; cbn; rewrite E; auto.
+  Qed.
+
+  Lemma lookup_dict_set_neq k k' v d : k' <> k -> lookup k' (dict_set k v d) = lookup k' d.
+  Proof.
+    intro N. induction d as [|[k0 v0] r IH]; cbn.
+    - destruct (k' =? k) eqn:E; auto. lia.
+    - destruct (k =? k0) eqn:E; cbn; [|now rewrite IH].
+      destruct (k' =? k0) eqn:E2; auto. lia.
+  Qed.
+
+  Lemma lookup_None k d : lookup k d = None <-> ~ In k (map fst d).
+  Proof.
+    induction d as [|[k' v'] r IH]; cbn; [tauto|].
+    destruct (k =? k') eqn:E.
+    - split; [discriminate|]. intro N. exfalso. apply N. left. lia.
+    - rewrite IH. split; intro N; [intros [E2|E2]; [lia|auto]|tauto].
+  Qed.
+
+  Lemma lookup_Some_In k v d : lookup k d = Some v -> In (k, v) d.
+  Proof.
+    induction d as [|[k' v'] r IH]; cbn; [discriminate|].
+    destruct (k =? k') eqn:E; [|auto]. intro H; injection H as ->. left. f_equal. lia.
+  Qed.
+
+  Lemma In_lookup k v d : NoDup (map fst d) -> In (k, v) d -> lookup k d = Some v.
+  Proof.
+    induction d as [|[k' v'] r IH]; cbn; [tauto|]. intros ND [E|H].
+    - injection E as -> ->. now rewrite Z.eqb_refl.
+    - inversion ND as [|? ? N ND']; subst. destruct (k =? k') eqn:E; auto.
+      exfalso. apply N. assert (k = k') by lia. subst. apply (in_map fst) in H. exact H.
+  Qed.
+
+  Lemma dict_set_names k v d :
+    map fst (dict_set k v d) = if existsb (Z.eqb k) (map fst d) then map fst d else map fst d ++ [k].
+  Proof.
+    induction d as [|[k' v'] r IH]; cbn; auto.
+    destruct (k =? k') eqn:E; cbn; auto. rewrite IH. destruct (existsb _ _); auto.
+  Qed.
+
+  Lemma dict_set_In_names k v d k' :
+    In k' (map fst (dict_set k v d)) <-> k' = k \/ In k' (map fst d).
+  Proof.
+    rewrite dict_set_names. destruct (existsb (Z.eqb k) (map fst d)) eqn:E.
+    - split; auto. intros [->|H]; auto. apply existsb_exists in E as (x & Hx & E). assert (k = x) by lia. now subst.
+    - rewrite in_app_iff. cbn. split; [intros [H|[H|[]]]; auto|intros [->|H]; auto].
+  Qed.
+
+  Lemma dict_set_NoDup k v d : NoDup (map fst d) -> NoDup (map fst (dict_set k v d)).
+  Proof.
+    intro ND. rewrite dict_set_names. destruct (existsb (Z.eqb k) (map fst d)) eqn:E; auto.
+    apply NoDup_app_last; auto.
+    intro H. assert (existsb (Z.eqb k) (map fst d) = true); [|congruence].
+    apply existsb_exists. exists k. split; auto. apply Z.eqb_refl.
+  Qed.
+End DictLemmas.
+
+(* ------------------------------------------------------------------------- *)
+(* record: fuel, totality, what each chapter receives                          *)
+(* ------------------------------------------------------------------------- *)
+Fixpoint maxd (d : dict) : nat :=
+  match d with [] => O | (_, x) :: r => Nat.max (vdepth x) (maxd r) end.
+
+Lemma vdepth_dict d : vdepth (VDict d) = S (maxd d).
+Proof.
+  reflexivity.
+Qed.
+
+Lemma ddepth_maxd d : ddepth d = S (maxd d).
+Proof. apply vdepth_dict. Qed.
+
+Lemma maxd_In k v d : In (k, v) d -> (vdepth v <= maxd d)%nat.
+Proof.
+  induction d as [|[k' x] r IH]; cbn; [tauto|]. intros [E|H]; [injection E as -> ->; lia|].
+  specialize (IH H). lia.
+Qed.
+
+Lemma maxd_dict_set_int k z d : (maxd (dict_set k (VInt z) d) <= maxd d)%nat.
+Proof.
+  induction d as [|[k' x] r IH]; cbn; [lia|]. destruct (k =? k'); cbn; lia.
+Qed.
+
+Lemma maxd_update_inject d e : (maxd (dict_update d (inject e)) <= maxd d)%nat.
+Proof.
+  unfold dict_update. revert d. induction e as [|[k z] r IH]; intro d; cbn; [lia|].
+  etransitivity; [apply IH|]. apply maxd_dict_set_int.
+Qed.
+
+Lemma sub_depth k d e infos :
+  In (k, VDict d) infos -> (ddepth (dict_update d (inject e)) < ddepth infos)%nat.
+Proof.
+  intro H. rewrite !ddepth_maxd. apply maxd_In in H. rewrite vdepth_dict in H.
+  pose proof (maxd_update_inject d e). lia.
+Qed.
+
+Lemma record_loop_total f items cs :
+  (forall k d c, In (k, VDict d) items -> exists c', f d c = Some c') ->
+  exists cs', record_loop f items cs = Some cs'.
+Proof.
+  revert cs; induction items as [|[k [z|d]] r IH]; intros cs H; cbn.
+  - eauto.
+  - apply IH. intros; eapply H; right; eauto.
+  - destruct (H k d (chapter_of k cs)) as [c' E]; [now left|]. rewrite E.
+    apply IH. intros; eapply H; right; eauto.
+Qed.
+
+Lemma lb_record_total fuel uid infos l :
+  (ddepth infos < fuel)%nat ->
+  exists l', lb_record fuel uid infos l = Some l' /\
+    recs l' = recs l ++ [(uid, scalars infos)] /\ buff l' = buff l /\ hdr l' = hdr l /\ logh l' = logh l.
+Proof.
+  revert infos l; induction fuel as [|f IH]; intros infos l Hf; [lia|]. cbn [lb_record].
+  destruct (record_loop_total
+              (fun (d : dict) (c : lb) => lb_record f uid (dict_update d (inject (scalars infos))) c) infos (chs l)) as [cs' E].
+  { intros k d c Hin. destruct (IH (dict_update d (inject (scalars infos))) c) as (c' & E & _); eauto.
+    pose proof (sub_depth k d (scalars infos) infos Hin). lia. }
+  rewrite E. eexists; repeat split.
+Qed.
+
+(* what the loop leaves in self.chapters *)
+Lemma record_loop_spec f items : forall cs cs',
+  NoDup (map fst items) -> record_loop f items cs = Some cs' ->
+  (forall k, lookup k cs' = match lookup k items with
+                            | Some (VDict d) => f d (chapter_of k cs)
+                            | _ => lookup k cs
+                            end) /\
+  (forall k, In k (map fst cs') <-> In k (map fst cs) \/ exists d, In (k, VDict d) items) /\
+  (NoDup (map fst cs) -> NoDup (map fst cs')).
+Proof.
+  induction items as [|[k0 [z|d]] r IH]; intros cs cs' ND E; cbn in E.
+  - injection E as <-. repeat split; auto. intros [H|(d & [])]; auto.
+  - inversion ND as [|? ? N ND']; subst. destruct (IH _ _ ND' E) as (L & I & D).
+    repeat split; auto.
+    + intro k. cbn. destruct (k =? k0) eqn:Ek.
+      * assert (k = k0) by lia. subst. rewrite L.
+        assert (lookup k0 r = None) as -> by (now apply lookup_None). reflexivity.
+      * apply L.
+    + intro H. apply I in H as [H|(d & H)]; auto. right. exists d. now right.
+    + intros [H|(d & [H|H])]; apply I; auto; [discriminate|eauto].
+  - inversion ND as [|? ? N ND']; subst.
+    destruct (f d (chapter_of k0 cs)) as [c'|] eqn:Ec; [|discriminate].
+    destruct (IH _ _ ND' E) as (L & I & D).
+    repeat split.
+    + intro k. cbn. destruct (k =? k0) eqn:Ek.
+      * assert (k = k0) by lia. subst. rewrite L.
+        assert (lookup k0 r = None) as -> by (now apply lookup_None).
+        now rewrite lookup_dict_set_eq.
+      * rewrite L. unfold chapter_of. rewrite !lookup_dict_set_neq by lia. reflexivity.
+    + intro H. apply I in H as [H|(d2 & H)].
+      * apply dict_set_In_names in H as [->|H]; auto. right. exists d. now left.
+      * right. exists d2. now right.
+    + intros [H|(d2 & [H|H])]; apply I.
+      * left. apply dict_set_In_names. auto.
+      * injection H as -> ->. left. apply dict_set_In_names. auto.
+      * right. eauto.
+    + intro H. apply D. now apply dict_set_NoDup.
+Qed.
+
+(* ------------------------------------------------------------------------- *)
+(* chapter-name trees, the uniformity hypothesis, alignment                    *)
+(* ------------------------------------------------------------------------- *)
+Inductive shape := Sh (sub : list (name * shape)).
+
+(* the chapter names of a logbook, recursively *)
+Fixpoint tree_of (l : lb) : shape :=
+  match l with LB _ _ cs _ _ => Sh (map (fun kc => (fst kc, tree_of (snd kc))) cs) end.
+
+(* same names at every level, in any order *)
+Inductive shape_eqv : shape -> shape -> Prop :=
+| SE a b :
+    NoDup (map fst a) -> NoDup (map fst b) ->
+    (forall k, In k (map fst a) <-> In k (map fst b)) ->
+    (forall k x y, In (k, x) a -> In (k, y) b -> shape_eqv x y) ->
+    shape_eqv (Sh a) (Sh b).
+
+(* record( **infos ) feeds exactly the chapters of the tree s, at every level: the keys of infos are
+   distinct (it is a dict), its dictionary-valued keys are the names of s, and each dictionary -- once
+   the scalar fields of infos are merged in, as record() does -- feeds the sub-tree of that name *)
+Inductive has_shape : dict -> shape -> Prop :=
+| HS infos sub :
+    NoDup (map fst infos) -> NoDup (map fst sub) ->
+    (forall k, In k (map fst sub) <-> exists d, In (k, VDict d) infos) ->
+    (forall k d s, In (k, VDict d) infos -> In (k, s) sub ->
+                   has_shape (dict_update d (inject (scalars infos))) s) ->
+    has_shape infos (Sh sub).
+
+Definition fresh (l : lb) : Prop := recs l = [] /\ chs l = [].
+Definition shaped (l : lb) (s : shape) : Prop := fresh l \/ shape_eqv (tree_of l) s.
+
+(* every field of the logbook's entry for record u is in the chapter's entry for u *)
+Definition flows (rs rc : list (nat * entry)) : Prop :=
+  forall u e e', In (u, e) rs -> In (u, e') rc -> forall k z, lookup k e = Some z -> lookup k e' = Some z.
+
+(* aligned n l: every chapter, recursively, holds exactly the records (uids) of its logbook, in the
+   same order, and has received their scalar fields; chapter names are distinct; all uids < n *)
+Inductive aligned (n : nat) : lb -> Prop :=
+| Aligned rs bf cs h g :
+    NoDup (map fst cs) ->
+    (forall u, In u (map fst rs) -> (u < n)%nat) ->
+    Forall (fun kc => aligned n (snd kc) /\ ids (snd kc) = map fst rs /\ flows rs (recs (snd kc))) cs ->
+    aligned n (LB rs bf cs h g).
+
+Lemma aligned_new n : aligned n new_lb.
+Proof. constructor; [constructor|intros u []|constructor]. Qed.
+
+Lemma aligned_mono n m l : aligned n l -> (n <= m)%nat -> aligned m l.
+Proof.
+  intros H Hle. induction l as [rs bf cs h g IH] using lb_ind'.
+  inversion H as [? ? ? ? ? ND Hlt F]; subst. constructor; auto.
+  - intros u Hu. specialize (Hlt u Hu). lia.
+  - rewrite Forall_forall in *. intros kc Hkc. destruct (F kc Hkc) as (A & B & C). auto.
+Qed.
+
+Lemma aligned_chapter n l k c :
+  aligned n l -> In (k, c) (chs l) -> aligned n c /\ ids c = ids l /\ flows (recs l) (recs c).
+Proof.
+  intros H Hin. inversion H as [? ? ? ? ? ND Hlt F]; subst. rewrite Forall_forall in F.
+  apply (F (k, c)). exact Hin.
+Qed.
+
+(* ---- scalar fields ---- *)
+Lemma scalars_names_In k d : In k (map fst (scalars d)) -> In k (map fst d).
+Proof.
+  induction d as [|[k0 [z|d0]] r IH]; cbn; auto. intros [->|H]; auto.
+Qed.
+
+Lemma scalars_NoDup d : NoDup (map fst d) -> NoDup (map fst (scalars d)).
+Proof.
+  induction d as [|[k0 [z|d0]] r IH]; cbn; intro ND; auto; inversion ND; subst; auto.
+  constructor; auto. intro H. apply scalars_names_In in H. auto.
+Qed.
+
+Lemma lookup_scalars d k :
+  NoDup (map fst d) ->
+  lookup k (scalars d) = match lookup k d with Some (VInt z) => Some z | _ => None end.
+Proof.
+  induction d as [|[k0 [z|d0]] r IH]; cbn; intro ND; auto; inversion ND as [|? ? N ND']; subst.
+  - destruct (k =? k0); auto.
+  - destruct (k =? k0) eqn:E; auto. assert (k = k0) by lia. subst.
+    apply lookup_None. intro H. apply scalars_names_In in H. auto.
+Qed.
+
+Lemma lookup_update {V} (d u : list (name * V)) k :
+  NoDup (map fst u) ->
+  lookup k (dict_update d u) = match lookup k u with Some v => Some v | None => lookup k d end.
+Proof.
+  unfold dict_update. revert d; induction u as [|[k0 v0] r IH]; intros d ND; cbn; auto.
+  inversion ND as [|? ? N ND']; subst. rewrite IH by auto.
+  destruct (k =? k0) eqn:E.
+  - assert (k = k0) by lia. subst.
+    assert (lookup k0 r = None) as -> by (now apply lookup_None). apply lookup_dict_set_eq.
+  - destruct (lookup k r); auto. apply lookup_dict_set_neq. lia.
+Qed.
+
+Lemma update_NoDup {V} (d u : list (name * V)) : NoDup (map fst d) -> NoDup (map fst (dict_update d u)).
+Proof.
+  unfold dict_update. revert d; induction u as [|[k0 v0] r IH]; intros d ND; cbn; auto.
+  apply IH. now apply dict_set_NoDup.
+Qed.
+
+Lemma inject_names e : map fst (inject e) = map fst e.
+Proof. unfold inject. rewrite map_map. reflexivity. Qed.
+
+Lemma lookup_inject e k : lookup k (inject e) = option_map VInt (lookup k e).
+Proof. induction e as [|[k0 z] r IH]; cbn; auto. destruct (k =? k0); auto. Qed.
+
+(* the entry a chapter receives: the record's scalar fields win, then the dictionary's own *)
+Lemma lookup_chapter_entry d e k :
+  NoDup (map fst d) -> NoDup (map fst e) ->
+  lookup k (scalars (dict_update d (inject e))) =
+  match lookup k e with
+  | Some z => Some z
+  | None => match lookup k d with Some (VInt z) => Some z | _ => None end
+  end.
+Proof.
+  intros NDd NDe. rewrite lookup_scalars by (now apply update_NoDup).
+  rewrite lookup_update by (now rewrite inject_names). rewrite lookup_inject.
+  destruct (lookup k e); reflexivity.
+Qed.
+
+Lemma tree_of_names l : map fst (let 'Sh s := tree_of l in s) = map fst (chs l).
+Proof. destruct l; cbn. rewrite map_map. reflexivity. Qed.
+
+(* ---- record keeps a uniformly fed logbook aligned ---- *)
+Lemma lb_record_inv fuel uid infos l l' :
+  lb_record fuel uid infos l = Some l' ->
+  exists f cs', fuel = S f /\
+    record_loop (fun (d : dict) (c : lb) => lb_record f uid (dict_update d (inject (scalars infos))) c) infos (chs l) = Some cs' /\
+    l' = LB (recs l ++ [(uid, scalars infos)]) (buff l) cs' (hdr l) (logh l).
+Proof.
+  destruct fuel as [|f]; [discriminate|]. cbn [lb_record].
+  destruct (record_loop _ infos (chs l)) as [cs'|] eqn:E; [|discriminate].
+  intro H; injection H as <-. eauto.
+Qed.
+
+Lemma record_aligned : forall fuel uid infos l s,
+  (ddepth infos < fuel)%nat -> has_shape infos s -> shaped l s -> aligned uid l ->
+  exists l', lb_record fuel uid infos l = Some l' /\
+    shape_eqv (tree_of l') s /\ aligned (S uid) l' /\
+    recs l' = recs l ++ [(uid, scalars infos)] /\ buff l' = buff l /\ hdr l' = hdr l /\ logh l' = logh l.
+Proof.
+  induction fuel as [|f IH]; intros uid infos l s Hf HS Hsh Hal; [lia|].
+  destruct (lb_record_total (S f) uid infos l Hf) as (l' & E & Hrecs & Hbuff & Hhdr & Hlogh).
+  exists l'. split; [exact E|].
+  apply lb_record_inv in E as (f' & cs' & Ef & EL & ->). injection Ef as <-.
+  inversion HS as [? sub NDi NDs Hkeys Hsub]; subst.
+  destruct l as [rs bf cs h g]. cbn [recs buff chs hdr logh] in *.
+  inversion Hal as [? ? ? ? ? NDc Hlt Fall]; subst.
+  rewrite Forall_forall in Fall.
+  destruct (record_loop_spec _ _ _ _ NDi EL) as (L & I & D).
+  set (A := scalars infos) in *.
+  assert (NDA : NoDup (map fst A)) by (now apply scalars_NoDup).
+  (* every chapter to be fed is, before the call, aligned with the logbook and of the right shape *)
+  assert (Pre : forall k y, In (k, y) sub ->
+            let c0 := chapter_of k cs in
+            shaped c0 y /\ aligned uid c0 /\ ids c0 = map fst rs /\ flows rs (recs c0)).
+  { intros k y Hy c0. destruct Hsh as [[Hr Hc]|Heq].
+    - cbn in Hr, Hc. subst rs cs. subst c0. unfold chapter_of. cbn [lookup].
+      split; [left; split; reflexivity|]. split; [apply aligned_new|]. split; [reflexivity|]. intros u e e' [].
+    - inversion Heq as [a b NDa NDb Hn Hrec]; subst.
+      assert (Hk : In k (map fst cs)).
+      { specialize (Hn k). rewrite map_map in Hn. cbn in Hn. apply Hn. apply (in_map fst) in Hy. exact Hy. }
+      destruct (lookup k cs) as [c|] eqn:El; [|apply lookup_None in El; tauto].
+      subst c0. unfold chapter_of. rewrite El. apply lookup_Some_In in El.
+      destruct (Fall _ El) as (Ha & Hi & Hf'). cbn in Ha, Hi, Hf'.
+      repeat split; auto. right. apply (Hrec k); auto.
+      apply in_map_iff. exists (k, c). split; auto. }
+  (* what every chapter is after the call *)
+  assert (Post : forall k c', In (k, c') cs' ->
+            exists y d, In (k, y) sub /\ In (k, VDict d) infos /\
+              shape_eqv (tree_of c') y /\ aligned (S uid) c' /\
+              recs c' = recs (chapter_of k cs) ++ [(uid, scalars (dict_update d (inject A)))]).
+  { intros k c' Hin.
+    assert (Hk : In k (map fst sub)).
+    { apply (in_map fst) in Hin. cbn in Hin. apply I in Hin as [Hin|Hin]; [|now apply Hkeys].
+      destruct Hsh as [[Hr Hc]|Heq]; [cbn in Hc; subst cs; destruct Hin|].
+      inversion Heq as [a b NDa NDb Hn Hrec]; subst. apply Hn. rewrite map_map. exact Hin. }
+    apply in_map_iff in Hk as ([k' y] & Ek & Hy). cbn in Ek. subst k'.
+    assert (Hd : exists d, In (k, VDict d) infos) by (apply Hkeys; apply (in_map fst) in Hy; exact Hy).
+    destruct Hd as [d Hd]. exists y, d. split; auto. split; auto.
+    assert (El : lookup k cs' = Some c') by (apply In_lookup; auto).
+    rewrite L in El. rewrite (In_lookup _ _ _ NDi Hd) in El.
+    destruct (Pre k y Hy) as (P1 & P2 & P3 & P4).
+    destruct (IH uid (dict_update d (inject A)) (chapter_of k cs) y) as (c'' & Ec & Q1 & Q2 & Q3 & _); auto.
+    { pose proof (sub_depth k d A infos Hd). lia. }
+    { eapply Hsub; eauto. }
+    rewrite Ec in El. injection El as ->. auto. }
+  split; [|split; [|repeat split; auto]].
+  - (* shape *)
+    cbn [tree_of]. constructor; auto.
+    + rewrite map_map. cbn. auto.
+    + intro k. rewrite map_map. cbn. rewrite I. rewrite Hkeys. split.
+      * intros [H|H]; auto. destruct Hsh as [[Hr Hc]|Heq]; [cbn in Hc; subst cs; destruct H|].
+        inversion Heq as [a b NDa NDb Hn Hrec]; subst. apply Hkeys. apply Hn. rewrite map_map. exact H.
+      * auto.
+    + intros k x y Hx Hy. apply in_map_iff in Hx as ([k' c'] & Ex & Hc'). cbn in Ex. injection Ex as -> <-.
+      destruct (Post _ _ Hc') as (y' & d & Hy' & _ & Q & _).
+      assert (y' = y) as <-; auto.
+      apply (In_lookup _ _ _ NDs) in Hy, Hy'. congruence.
+  - (* alignment *)
+    constructor; auto.
+    + intros u Hu. rewrite map_app in Hu. apply in_app_or in Hu as [Hu|[<-|[]]]; [|cbn; lia].
+      specialize (Hlt u Hu). lia.
+    + apply Forall_forall. intros [k c'] Hin. cbn [snd].
+      destruct (Post _ _ Hin) as (y & d & Hy & Hd & Q1 & Q2 & Q3).
+      destruct (Pre k y Hy) as (P1 & P2 & P3 & P4).
+      split; auto. split.
+      * unfold ids in *. rewrite Q3, !map_app, P3. reflexivity.
+      * (* the scalar fields flow into the chapter *)
+        rewrite Q3. intros u e e' Hu Hu' kk z Hl.
+        apply in_app_or in Hu as [Hu|[Hu|[]]]; apply in_app_or in Hu' as [Hu'|[Hu'|[]]].
+        -- eapply P4; eauto.
+        -- injection Hu' as <- <-. apply (in_map fst) in Hu. apply Hlt in Hu. cbn in Hu. lia.
+        -- injection Hu as <- <-. apply (in_map fst) in Hu'. fold (ids (chapter_of k cs)) in Hu'.
+           rewrite P3 in Hu'. apply Hlt in Hu'. cbn in Hu'. lia.
+        -- injection Hu as _ <-. injection Hu' as _ <-.
+           assert (NDd : NoDup (map fst d)).
+           { (* the effective dictionary is a dict, hence so is d's key list up to the merged fields *)
+             specialize (Hsub k d y Hd Hy). inversion Hsub as [? ? NDeff _ _ _]; subst.
+             clear - NDeff. revert NDeff. generalize (inject A). intros u. unfold dict_update.
+             revert d. induction u as [|[k0 v0] r IHu]; intros d0 H; cbn in H; auto.
+             apply IHu in H. rewrite dict_set_names in H. destruct (existsb _ _); auto.
+             apply NoDup_remove_1 with (l' := []) in H. now rewrite app_nil_r in H. }
+           rewrite lookup_chapter_entry by auto. now rewrite Hl.
+Qed.
+
+(* ------------------------------------------------------------------------- *)
+(* pop / __delitem__                                                           *)
+(* ------------------------------------------------------------------------- *)
+Lemma lb_pop_out_of_range i l : py_get (recs l) i = None -> lb_pop i l = (l, Err IndexError).
+Proof. destruct l as [rs bf cs h g]; cbn. intros ->. reflexivity. Qed.
+
+(* the top-level list, whatever the chapters do *)
+Lemma lb_pop_top i l :
+  recs (fst (lb_pop i l)) =
+  match py_get (recs l) i with
+  | Some _ => remove_nth (Z.to_nat (norm_index i (zlen (recs l)))) (recs l)
+  | None => recs l
+  end.
+Proof.
+  destruct l as [rs bf cs h g]; cbn [lb_pop recs]. destruct (py_get rs i); [|reflexivity].
+  destruct (pop_chapters _ cs). reflexivity.
+Qed.
+
+Lemma pop_chapters_ok f cs :
+  Forall (fun kc => exists it, snd (f (snd kc)) = Ok it) cs ->
+  pop_chapters f cs = (map (fun kc => (fst kc, fst (f (snd kc)))) cs, None).
+Proof.
+  induction 1 as [|[k c] r (it & E) F IH]; cbn; auto.
+  cbn in E. destruct (f c) as [c' x]. cbn in E. subst x. rewrite IH. reflexivity.
+Qed.
+
+Lemma zlen_map {A B} (f : A -> B) l : zlen (map f l) = zlen l.
+Proof. unfold zlen. now rewrite map_length. Qed.
+
+Lemma lb_pop_aligned n : forall l, aligned n l -> forall i item,
+  py_get (recs l) i = Some item ->
+  let J := norm_index i (zlen (recs l)) in
+  exists l', lb_pop i l = (l', Ok item) /\ aligned n l' /\
+    recs l' = remove_nth (Z.to_nat J) (recs l) /\
+    buff l' = (if J <? buff l then buff l - 1 else buff l) /\
+    hdr l' = hdr l /\ logh l' = logh l /\ tree_of l' = tree_of l.
+Proof.
+  induction l as [rs bf cs h g IH] using lb_ind'. intros Hal i item Hget J.
+  cbn [recs buff hdr logh] in *. cbn [lb_pop]. rewrite Hget.
+  destruct (py_get_some _ _ _ Hget) as (Hr & HJ & Hnth). fold J in HJ, Hnth. fold J.
+  set (rs' := remove_nth (Z.to_nat J) rs).
+  assert (Hlen : zlen rs' = zlen rs - 1).
+  { unfold zlen, rs'. rewrite remove_nth_length; unfold zlen in *; lia. }
+  assert (Hidx : (if i <? 0 then i + (zlen rs' + 1) else i) = J).
+  { unfold J, norm_index. destruct (i <? 0); lia. }
+  rewrite Hidx.
+  inversion Hal as [? ? ? ? ? ND Hlt Fall]; subst.
+  rewrite Forall_forall in IH, Fall.
+  (* every chapter pops the same position successfully *)
+  assert (Hch : forall kc, In kc cs ->
+            exists c' it, lb_pop J (snd kc) = (c', Ok it) /\ aligned n c' /\
+              recs c' = remove_nth (Z.to_nat J) (recs (snd kc)) /\ tree_of c' = tree_of (snd kc)).
+  { intros kc Hin. destruct (Fall _ Hin) as (Ha & Hi & Hf).
+    assert (Hz : zlen (recs (snd kc)) = zlen rs).
+    { unfold ids in Hi. apply (f_equal zlen) in Hi. now rewrite !zlen_map in Hi. }
+    destruct (py_get_in_range (recs (snd kc)) J) as [it Hit]; [lia|].
+    destruct (IH _ Hin Ha J it Hit) as (c' & E & A1 & A2 & _ & _ & _ & A3).
+    exists c', it. rewrite Hz in A2. unfold norm_index in A2.
+    replace (J <? 0) with false in A2 by lia. auto. }
+  rewrite pop_chapters_ok.
+  2:{ apply Forall_forall. intros kc Hin. destruct (Hch _ Hin) as (c' & it & E & _). rewrite E. cbn. eauto. }
+  eexists. split; [reflexivity|]. cbn [recs buff hdr logh tree_of].
+  split; [|split; [reflexivity|split; [reflexivity|split; [reflexivity|split; [reflexivity|]]]]].
+  - (* aligned *)
+    constructor.
+    + rewrite map_map. cbn. auto.
+    + intros u Hu. apply Hlt. fold rs' in Hu. unfold rs' in Hu. rewrite remove_nth_map in Hu.
+      eapply remove_nth_In; eauto.
+    + apply Forall_forall. intros kc' Hin'. apply in_map_iff in Hin' as (kc & <- & Hin). cbn [snd].
+      destruct (Hch _ Hin) as (c' & it & E & A1 & A2 & A3). rewrite E. cbn [fst].
+      destruct (Fall _ Hin) as (Ha & Hi & Hf).
+      split; auto. split.
+      * unfold ids in *. rewrite A2. fold rs'. unfold rs'. rewrite !remove_nth_map. now rewrite Hi.
+      * intros u e e' Hu Hu'. rewrite A2 in Hu'. eapply Hf; eapply remove_nth_In; eauto.
+  - (* same chapter names *)
+    f_equal. rewrite map_map. apply map_ext_in. intros kc Hin. cbn.
+    destruct (Hch _ Hin) as (c' & it & E & _ & _ & A3). rewrite E. cbn. now rewrite A3.
+Qed.
+
+(* popping a strictly descending list of valid positions *)
+Lemma pop_all_aligned n : forall ps l,
+  aligned n l -> StronglySorted Z.gt ps -> (forall p, In p ps -> 0 <= p < zlen (recs l)) ->
+  exists l', pop_all ps l = (l', None) /\ aligned n l' /\
+    recs l' = fold_left (fun acc p => remove_nth (Z.to_nat p) acc) ps (recs l) /\
+    hdr l' = hdr l /\ logh l' = logh l /\ tree_of l' = tree_of l.
+Proof.
+  induction ps as [|p ps IH]; intros l Hal Hs Hr; cbn [pop_all fold_left].
+  - eexists; repeat split; auto.
+  - inversion Hs as [|? ? Hs' F]; subst. rewrite Forall_forall in F.
+    assert (Hp : 0 <= p < zlen (recs l)) by (apply Hr; now left).
+    destruct (py_get_in_range (recs l) p) as [item Hit]; [lia|].
+    destruct (lb_pop_aligned n l Hal p item Hit) as (l1 & E & A1 & A2 & A3 & A4 & A5 & A6).
+    rewrite E. unfold norm_index in A2. replace (p <? 0) with false in A2 by lia.
+    destruct (IH l1 A1 Hs') as (l' & E' & B1 & B2 & B3 & B4 & B5).
+    { intros q Hq. specialize (F _ Hq). assert (0 <= q < zlen (recs l)) by (apply Hr; now right).
+      rewrite A2. unfold zlen in *. rewrite remove_nth_length by lia. lia. }
+    exists l'. rewrite E'. repeat split; auto; try congruence.
+Qed.
+
+(* del log[start:stop:step] on an aligned logbook removes exactly the addressed positions *)
+Lemma lb_delslice_aligned n l a b st :
+  aligned n l -> match st with Some 0 => False | _ => True end ->
+  let step := match st with None => 1 | Some s => s end in
+  exists l', lb_delslice a b st l = (l', Ok tt) /\ aligned n l' /\
+    recs l' = del_positions (slice_idx a b step (zlen (recs l))) (recs l) /\
+    hdr l' = hdr l /\ logh l' = logh l /\ tree_of l' = tree_of l.
+Proof.
+  intros Hal Hst step. unfold lb_delslice. fold step.
+  assert (Hne : step <> 0) by (subst step; destruct st as [[| |]|]; try lia; tauto).
+  replace (step =? 0) with false by lia.
+  set (ps := slice_idx a b step (zlen (recs l))).
+  assert (Hb : forall p, In p ps -> 0 <= p < zlen (recs l)).
+  { intros p Hp. eapply slice_idx_bounds; eauto. unfold zlen; lia. }
+  destruct (pop_all_aligned n (sort_desc ps) l Hal) as (l' & E & A1 & A2 & A3 & A4 & A5).
+  { apply sort_desc_strict. now apply slice_idx_NoDup. }
+  { intros p Hp. apply Hb. now apply sort_desc_In. }
+  rewrite E. exists l'. repeat split; auto.
+  rewrite A2. rewrite pop_desc_del_positions.
+  - unfold del_positions. apply drop_pos_ext. intros j _. apply sort_desc_In.
+  - apply sort_desc_strict. now apply slice_idx_NoDup.
+  - intros p Hp. apply Hb. now apply sort_desc_In.
+Qed.
+
+Lemma lb_delslice_step0 a b l : lb_delslice a b (Some 0) l = (l, Err ValueError).
 Proof. reflexivity. Qed.
+
+(* ------------------------------------------------------------------------- *)
+(* stream / __str__                                                            *)
+(* ------------------------------------------------------------------------- *)
+Lemma skipn_nth_error {A} (l : list A) a x : nth_error l a = Some x -> skipn a l = x :: skipn (S a) l.
+Proof.
+  revert a; induction l as [|y r IH]; intros [|a] H; cbn in *; try discriminate.
+  - now injection H as ->.
+  - now apply IH.
+Qed.
+
+Lemma flat_nth_seq {A} (l : list A) n : forall a, (a + n = length l)%nat ->
+  flat_map (fun i => match nth_error l i with Some x => [x] | None => [] end) (seq a n) = skipn a l.
+Proof.
+  induction n as [|n IH]; intros a H; cbn.
+  - rewrite skipn_all2; auto. lia.
+  - destruct (nth_error l a) eqn:E.
+    + rewrite IH by lia. cbn. symmetry. now apply skipn_nth_error.
+    + apply nth_error_None in E. lia.
+Qed.
+
+Lemma flat_map_map {A B C} (f : B -> list C) (g : A -> B) l :
+  flat_map f (map g l) = flat_map (fun x => f (g x)) l.
+Proof. induction l; cbn; auto. now rewrite IHl. Qed.
+
+Lemma range_as_seq b n : 0 <= b -> forall a,
+  map (fun i => b + Z.of_nat i * 1) (seq a n) = map Z.of_nat (seq (Z.to_nat b + a) n).
+Proof.
+  intro Hb. induction n as [|n IH]; intro a; cbn; auto.
+  rewrite IH. f_equal; [lia|]. f_equal. f_equal. lia.
+Qed.
+
+(* self[startindex:] *)
+Lemma py_slice_from {A} (l : list A) b :
+  0 <= b <= zlen l -> py_slice l (Some b) None 1 = skipn (Z.to_nat b) l.
+Proof.
+  intro Hb. unfold py_slice, slice_idx, slice_adjust. cbn.
+  replace (b <? 0) with false by lia. replace (Z.min b (zlen l)) with b by lia.
+  unfold py_range3, range_count. cbn.
+  assert (Hc : Z.to_nat (if b <? zlen l then (zlen l - b - 1) / 1 + 1 else 0) = (length l - Z.to_nat b)%nat).
+  { destruct (b <? zlen l) eqn:E; unfold zlen in *; [rewrite Z.div_1_r|]; lia. }
+  rewrite Hc. rewrite range_as_seq by lia. rewrite !flat_map_map.
+  rewrite Nat.add_0_r.
+  erewrite flat_map_ext; [apply flat_nth_seq; unfold zlen in *; lia|].
+  intro i. cbn. now rewrite Nat2Z.id.
+Qed.
+
+Lemma first_err_none f cs : (forall kc, In kc cs -> f (snd kc) = None) -> first_err f cs = None.
+Proof.
+  induction cs as [|[k c] r IH]; cbn; auto. intro H.
+  pose proof (H (k, c) (or_introl eq_refl)) as Hc. cbn in Hc. rewrite Hc. apply IH. intros; apply H; now right.
+Qed.
+
+Lemma aligned_len_aligned n l : aligned n l -> len_aligned l = true.
+Proof.
+  induction l as [rs bf cs h g IH] using lb_ind'. intro Hal.
+  inversion Hal as [? ? ? ? ? ND Hlt Fall]; subst. rewrite Forall_forall in *.
+  cbn. apply forallb_forall. intros kc Hin. destruct (Fall _ Hin) as (Ha & Hi & _).
+  rewrite (IH _ Hin Ha). unfold ids in Hi. apply (f_equal (@length _)) in Hi. rewrite !map_length in Hi.
+  rewrite Hi. now rewrite Nat.eqb_refl.
+Qed.
+
+Lemma txt_err_nonempty n start l : aligned n l -> recs l <> [] -> txt_err start l = None.
+Proof.
+  induction l as [rs bf cs h g IH] using lb_ind'. intros Hal Hne. cbn [recs] in Hne.
+  inversion Hal as [? ? ? ? ? ND Hlt Fall]; subst. rewrite Forall_forall in *.
+  cbn [txt_err]. destruct rs as [|r0 rs]; [congruence|]. cbn [isnil].
+  rewrite !andb_false_r. rewrite first_err_none; auto.
+  intros kc Hin. destruct (Fall _ Hin) as (Ha & Hi & _). apply IH; auto.
+  intro E. unfold ids in Hi. rewrite E in Hi. discriminate.
+Qed.
+
+(* on an empty logbook a header block is never produced: __txt__ raises instead *)
+Lemma txt_err_empty_header start l :
+  recs l = [] -> txt_err start l = None -> (start =? 0) && logh l = false.
+Proof.
+  destruct l as [rs bf cs h g]; cbn [recs logh txt_err]. intros ->. cbn [isnil].
+  rewrite !andb_true_r. destruct (negb (truthy h)); [discriminate|].
+  destruct (first_err _ cs); [discriminate|]. destruct ((start =? 0) && g); [discriminate|auto].
+Qed.
+
+(* what a text call returns when it returns *)
+Lemma lb_text_ok start l d hf :
+  0 <= start <= zlen (recs l) -> lb_text start l = Ok (d, hf) ->
+  d = skipn (Z.to_nat start) (ids l) /\ hf = (start =? 0) && logh l /\ (hf = true -> recs l <> []).
+Proof.
+  intros Hs. unfold lb_text. destruct (len_aligned l); cbn [negb]; [|discriminate].
+  destruct (txt_err start l) eqn:E; [discriminate|]. intro H; injection H as <- <-.
+  rewrite py_slice_from by auto. unfold ids. rewrite skipn_map. repeat split.
+  intros Hh Hnil. rewrite (txt_err_empty_header _ _ Hnil E) in Hh. discriminate.
+Qed.
+
+(* on an aligned, non-empty logbook it does return: nothing is lost *)
+Lemma lb_text_aligned n start l :
+  aligned n l -> recs l <> [] -> 0 <= start <= zlen (recs l) ->
+  lb_text start l = Ok (skipn (Z.to_nat start) (ids l), (start =? 0) && logh l).
+Proof.
+  intros Hal Hne Hs. unfold lb_text. rewrite (aligned_len_aligned _ _ Hal). cbn [negb].
+  rewrite (txt_err_nonempty _ _ _ Hal Hne). rewrite py_slice_from by auto.
+  unfold ids. now rewrite skipn_map.
+Qed.
+
+(* when it raises on an aligned logbook there was nothing to deliver *)
+Lemma lb_text_err_empty n start l e :
+  aligned n l -> 0 <= start <= zlen (recs l) -> lb_text start l = Err e -> recs l = [].
+Proof.
+  intros Hal Hs H. destruct (recs l) eqn:E; auto.
+  rewrite (lb_text_aligned n) in H; auto; [discriminate|congruence|now rewrite E].
+Qed.
+
+(* ------------------------------------------------------------------------- *)
+(* the streamed prefix: records 0..buffindex-1 are exactly the delivered,       *)
+(* not yet deleted ones                                                        *)
+(* ------------------------------------------------------------------------- *)
+Definition sinv (D : list nat) (idl : list nat) (b : Z) : Prop :=
+  NoDup D /\ 0 <= b <= zlen idl /\
+  forall u, In u (firstn (Z.to_nat b) idl) <-> In u D /\ In u idl.
+
+Lemma NoDup_app_disjoint {A} (a b : list A) x : NoDup (a ++ b) -> In x a -> In x b -> False.
+Proof.
+  induction a as [|y r IH]; cbn; [tauto|]. intros ND [->|Ha] Hb; inversion ND; subst.
+  - apply H1. apply in_or_app. auto.
+  - eapply IH; eauto.
+Qed.
+
+Lemma NoDup_app_r {A} (a b : list A) : NoDup (a ++ b) -> NoDup b.
+Proof. induction a as [|y r IH]; cbn; auto. intro H; inversion H; auto. Qed.
+
+Lemma NoDup_app_l {A} (a b : list A) : NoDup (a ++ b) -> NoDup a.
+Proof.
+  induction a as [|y r IH]; cbn; [constructor|]. intro H; inversion H; subst. constructor; auto.
+  intro Hin. apply H2. apply in_or_app. auto.
+Qed.
+
+Lemma NoDup_app_intro {A} (a b : list A) :
+  NoDup a -> NoDup b -> (forall x, In x a -> In x b -> False) -> NoDup (a ++ b).
+Proof.
+  induction a as [|y r IH]; cbn; auto. intros Na Nb H. inversion Na; subst. constructor.
+  - intro Hin. apply in_app_or in Hin as [Hin|Hin]; auto. eapply H; eauto.
+  - apply IH; auto. intros; eapply H; eauto.
+Qed.
+
+Lemma sinv_stream D idl b :
+  NoDup idl -> sinv D idl b -> sinv (D ++ skipn (Z.to_nat b) idl) idl (zlen idl).
+Proof.
+  intros ND (NDD & Hb & Hiff). split; [|split; [unfold zlen; lia|]].
+  - apply NoDup_app_intro; auto.
+    + rewrite <- (firstn_skipn (Z.to_nat b) idl) in ND. apply NoDup_app_r in ND. exact ND.
+    + intros x HD Hs. assert (Hi : In x idl) by (rewrite <- (firstn_skipn (Z.to_nat b) idl); apply in_or_app; auto).
+      assert (Hf : In x (firstn (Z.to_nat b) idl)) by (apply Hiff; auto).
+      rewrite <- (firstn_skipn (Z.to_nat b) idl) in ND. eapply NoDup_app_disjoint; eauto.
+  - intro u. unfold zlen. rewrite Nat2Z.id, firstn_all. split; [|tauto]. intro Hu. split; auto.
+    rewrite <- (firstn_skipn (Z.to_nat b) idl) in Hu. apply in_or_app.
+    apply in_app_or in Hu as [Hu|Hu]; auto. left. now apply Hiff.
+Qed.
+
+Lemma sinv_stream_empty D b : sinv D [] b -> sinv D [] 0.
+Proof. intros (NDD & Hb & Hiff). split; auto. split; [cbn; lia|]. intro u. cbn. tauto. Qed.
+
+Lemma sinv_pop D idl b J :
+  NoDup idl -> 0 <= J < zlen idl -> sinv D idl b ->
+  sinv D (remove_nth (Z.to_nat J) idl) (if J <? b then b - 1 else b).
+Proof.
+  intros ND HJ (NDD & Hb & Hiff).
+  assert (Hlen : zlen (remove_nth (Z.to_nat J) idl) = zlen idl - 1).
+  { unfold zlen in *. rewrite remove_nth_length; lia. }
+  assert (HjL : (Z.to_nat J < length idl)%nat) by (unfold zlen in *; lia).
+  split; auto. destruct (J <? b) eqn:E.
+  - split; [lia|]. intro u.
+    replace (Z.to_nat (b - 1)) with (Z.to_nat b - 1)%nat by lia.
+    rewrite firstn_remove_nth_lt by lia.
+    assert (NDf : NoDup (firstn (Z.to_nat b) idl)).
+    { rewrite <- (firstn_skipn (Z.to_nat b) idl) in ND. now apply NoDup_app_l in ND. }
+    rewrite (remove_nth_In_iff _ _ 0%nat _ NDf) by (rewrite firstn_length; unfold zlen in *; lia).
+    rewrite nth_firstn_lt by lia. rewrite Hiff.
+    rewrite (remove_nth_In_iff _ _ 0%nat _ ND HjL). tauto.
+  - split; [lia|]. intro u. rewrite firstn_remove_nth_ge by lia. rewrite Hiff.
+    rewrite (remove_nth_In_iff _ _ 0%nat _ ND HjL). split; [|tauto].
+    intros (HD & Hi). repeat split; auto. intros ->.
+    (* the J-th record is behind the streamed prefix *)
+    assert (Hf : In (nth (Z.to_nat J) idl 0%nat) (firstn (Z.to_nat b) idl)) by (apply Hiff; auto).
+    assert (Hs : In (nth (Z.to_nat J) idl 0%nat) (skipn (Z.to_nat b) idl)).
+    { replace (nth (Z.to_nat J) idl 0%nat) with (nth (Z.to_nat J - Z.to_nat b) (skipn (Z.to_nat b) idl) 0%nat).
+      - apply nth_In. rewrite skipn_length. lia.
+      - rewrite <- (firstn_skipn (Z.to_nat b) idl) at 2. rewrite app_nth2; rewrite firstn_length; [f_equal|]; lia. }
+    rewrite <- (firstn_skipn (Z.to_nat b) idl) in ND. eapply NoDup_app_disjoint; eauto.
+Qed.
+
+Lemma sinv_record D idl b uid :
+  (forall u, In u D -> (u < uid)%nat) -> sinv D idl b -> sinv D (idl ++ [uid]) b.
+Proof.
+  intros HD (NDD & Hb & Hiff). split; auto. split; [unfold zlen in *; rewrite app_length; cbn; lia|].
+  intro u. rewrite firstn_app. replace (Z.to_nat b - length idl)%nat with 0%nat by (unfold zlen in *; lia).
+  cbn. rewrite app_nil_r, Hiff. rewrite in_app_iff. cbn. split; [tauto|].
+  intros (Hu & [Hi|[<-|[]]]); auto. apply HD in Hu. lia.
+Qed.
+
+(* ------------------------------------------------------------------------- *)
+(* operation histories                                                         *)
+(* ------------------------------------------------------------------------- *)
+(* the dictionaries entered by the record operations of a history, in order *)
+Definition recorded (h : list op) : list dict :=
+  flat_map (fun o => match o with ORecord i => [i] | _ => [] end) h.
+(* what one stream call delivered / whether it contained the header *)
+Definition delivered_of (o : op) (x : out) : list nat :=
+  match o, x with OStream, OText d _ => d | _, _ => [] end.
+Definition header_of (o : op) (x : out) : nat :=
+  match o, x with OStream, OText _ true => 1%nat | _, _ => 0%nat end.
+(* concatenation of everything stream delivered / number of stream texts with a header *)
+Fixpoint delivered (s : state) (h : list op) : list nat :=
+  match h with
+  | [] => []
+  | o :: r => delivered_of o (snd (step s o)) ++ delivered (fst (step s o)) r
+  end.
+Fixpoint headers (s : state) (h : list op) : nat :=
+  match h with
+  | [] => 0%nat
+  | o :: r => (header_of o (snd (step s o)) + headers (fst (step s o)) r)%nat
+  end.
+
+Lemma final_app s h1 h2 : final s (h1 ++ h2) = final (final s h1) h2.
+Proof. unfold final. apply fold_left_app. Qed.
+Lemma final_cons s o h : final s (o :: h) = final (fst (step s o)) h.
+Proof. reflexivity. Qed.
+Lemma delivered_app s h1 h2 : delivered s (h1 ++ h2) = delivered s h1 ++ delivered (final s h1) h2.
+Proof. revert s; induction h1 as [|o r IH]; intro s; cbn; auto. rewrite IH, app_assoc. reflexivity. Qed.
+Lemma headers_app s h1 h2 : headers s (h1 ++ h2) = (headers s h1 + headers (final s h1) h2)%nat.
+Proof. revert s; induction h1 as [|o r IH]; intro s; cbn; auto. rewrite IH. unfold final. cbn. lia. Qed.
+Lemma recorded_app h1 h2 : recorded (h1 ++ h2) = recorded h1 ++ recorded h2.
+Proof. unfold recorded. apply flat_map_app. Qed.
+
+Lemma zlen_ids l : zlen (ids l) = zlen (recs l).
+Proof. unfold ids. apply zlen_map. Qed.
+
+(* ---- the top-level list: holds for every history, no hypothesis ---- *)
+Definition subrecs (a b : list (nat * entry)) : Prop :=
+  (forall x, In x a -> In x b) /\ (incr (map fst b) -> incr (map fst a)).
+
+Lemma subrecs_refl a : subrecs a a.
+Proof. split; auto. Qed.
+Lemma subrecs_trans a b c : subrecs a b -> subrecs b c -> subrecs a c.
+Proof. intros [A1 A2] [B1 B2]. split; auto. Qed.
+Lemma subrecs_remove k a : subrecs (remove_nth k a) a.
+Proof.
+  split; [intros x; apply remove_nth_In|]. rewrite remove_nth_map. apply incr_remove_nth.
+Qed.
+
+Lemma lb_pop_sub i l : subrecs (recs (fst (lb_pop i l))) (recs l).
+Proof. rewrite lb_pop_top. destruct (py_get (recs l) i); [apply subrecs_remove|apply subrecs_refl]. Qed.
+
+Lemma pop_all_sub ps : forall l, subrecs (recs (fst (pop_all ps l))) (recs l).
+Proof.
+  induction ps as [|p ps IH]; intro l; cbn; [apply subrecs_refl|].
+  pose proof (lb_pop_sub p l) as H. destruct (lb_pop p l) as [l1 [it|e]]; cbn in *; auto.
+  eapply subrecs_trans; eauto.
+Qed.
+
+Lemma lb_delslice_sub a b st l : subrecs (recs (fst (lb_delslice a b st l))) (recs l).
+Proof.
+  unfold lb_delslice. destruct (_ =? 0); [apply subrecs_refl|].
+  pose proof (pop_all_sub (sort_desc (slice_idx a b match st with Some s => s | None => 1 end (zlen (recs l)))) l) as H.
+  destruct (pop_all _ l). exact H.
+Qed.
+
+Record inv1 (s : state) (R : list dict) : Prop := {
+  i1_next : st_next s = length R;
+  i1_incr : incr (ids (st_lb s));
+  i1_lt : forall u, In u (ids (st_lb s)) -> (u < st_next s)%nat;
+  i1_content : forall u e, In (u, e) (recs (st_lb s)) ->
+               exists infos, nth_error R u = Some infos /\ e = scalars infos }.
+
+Lemma inv1_sub s R l' :
+  inv1 s R -> subrecs (recs l') (recs (st_lb s)) -> inv1 (mkstate l' (st_next s)) R.
+Proof.
+  intros [A B C D] [S1 S2]. constructor; cbn; auto.
+  - intros u Hu. apply C. unfold ids in *. apply in_map_iff in Hu as (x & <- & Hx). apply in_map. auto.
+Qed.
+
+Lemma step_inv1 s R o : inv1 s R -> inv1 (fst (step s o)) (R ++ recorded [o]).
+Proof.
+  intro I. destruct s as [l n]. destruct o as [infos|pth nms| | |i|i|a b c| |hd|g0]; cbn [recorded flat_map app]; rewrite ?app_nil_r.
+  - (* record *)
+    unfold step. cbn [st_lb st_next].
+    destruct (lb_record_total (S (ddepth infos)) n infos l) as (l' & E & Q1 & _); [lia|].
+    rewrite E. cbn [fst]. destruct I as [A B C D]. cbn in *. constructor; cbn.
+    + rewrite app_length. cbn. lia.
+    + unfold ids in *. rewrite Q1, map_app. cbn. apply incr_app_last; auto.
+    + unfold ids in *. rewrite Q1, map_app. intros u Hu. apply in_app_or in Hu as [Hu|[<-|[]]]; [|cbn; lia].
+      specialize (C u Hu). cbn. lia.
+    + rewrite Q1. intros u e Hu. apply in_app_or in Hu as [Hu|[Hu|[]]].
+      * destruct (D u e Hu) as (i0 & E1 & E2). exists i0. split; auto. rewrite nth_error_app1; auto.
+        apply nth_error_Some. congruence.
+      * injection Hu as <- <-. exists infos. split; auto. rewrite nth_error_app2 by lia.
+        rewrite A, Nat.sub_diag. reflexivity.
+  - (* select *) exact I.
+  - (* stream *) unfold step. cbn. apply (inv1_sub _ _ _ I). cbn. destruct l; apply subrecs_refl.
+  - (* print *) exact I.
+  - (* pop *)
+    unfold step. cbn [st_lb st_next]. pose proof (lb_pop_sub (match i with Some i => i | None => 0 end) l) as H.
+    destruct (lb_pop _ l) as [l' r]. cbn [fst] in *. apply (inv1_sub _ _ _ I H).
+  - (* delitem *)
+    unfold step, lb_delitem. cbn [st_lb st_next]. pose proof (lb_pop_sub i l) as H.
+    destruct (lb_pop i l) as [l' r]. cbn [fst] in *. apply (inv1_sub _ _ _ I H).
+  - (* delslice *)
+    unfold step. cbn [st_lb st_next]. pose proof (lb_delslice_sub a b c l) as H.
+    destruct (lb_delslice a b c l) as [l' r]. cbn [fst] in *. apply (inv1_sub _ _ _ I H).
+  - (* pickle *) exact I.
+  - (* header *) unfold step. cbn. apply (inv1_sub _ _ _ I). destruct l; apply subrecs_refl.
+  - unfold step. cbn. apply (inv1_sub _ _ _ I). destruct l; apply subrecs_refl.
+Qed.
+
+Lemma final_inv1 h : forall s R, inv1 s R -> inv1 (final s h) (R ++ recorded h).
+Proof.
+  induction h as [|o r IH]; intros s R I; cbn [recorded flat_map].
+  - now rewrite app_nil_r.
+  - rewrite final_cons. change (flat_map _ r) with (recorded r).
+    replace (R ++ (match o with ORecord i => [i] | _ => [] end) ++ recorded r)
+      with ((R ++ recorded [o]) ++ recorded r).
+    + apply IH. now apply step_inv1.
+    + cbn [recorded flat_map]. now rewrite app_nil_r, app_assoc.
+Qed.
+
+Lemma inv1_init : inv1 init_state [].
+Proof. constructor; cbn; auto; [constructor|intros u []|intros u e []]. Qed.
+
+(* ---- histories whose records all feed the same chapter tree ---- *)
+Definition uniform (S : shape) (h : list op) : Prop :=
+  forall infos, In (ORecord infos) h -> has_shape infos S.
+
+Record inv2 (S : shape) (s : state) (D : list nat) : Prop := {
+  i_al : aligned (st_next s) (st_lb s);
+  i_sh : shaped (st_lb s) S;
+  i_incr : incr (ids (st_lb s));
+  i_sinv : sinv D (ids (st_lb s)) (buff (st_lb s));
+  i_D : forall u, In u D -> (u < st_next s)%nat }.
+
+Lemma aligned_ids_lt n l u : aligned n l -> In u (ids l) -> (u < n)%nat.
+Proof. intros H Hu. inversion H; subst. auto. Qed.
+
+Lemma aligned_fields n rs bf cs h g bf' h' g' :
+  aligned n (LB rs bf cs h g) -> aligned n (LB rs bf' cs h' g').
+Proof. intro H. inversion H; subst. now constructor. Qed.
+
+Lemma shaped_fields S rs bf cs h g bf' h' g' :
+  shaped (LB rs bf cs h g) S -> shaped (LB rs bf' cs h' g') S.
+Proof. intros [[A B]|H]; [left; split; auto|right; exact H]. Qed.
+
+Lemma shaped_pop S l l' item i :
+  shaped l S -> py_get (recs l) i = Some item -> tree_of l' = tree_of l -> shaped l' S.
+Proof.
+  intros [[A B]|H] Hg Ht; [|right; now rewrite Ht].
+  rewrite A in Hg. unfold py_get in Hg. cbn in Hg. destruct (i <? 0); cbn in Hg;
+    destruct (_ || _) eqn:E; try discriminate; destruct (Z.to_nat _); discriminate.
+Qed.
+
+Ltac splits := repeat match goal with |- _ /\ _ => split end.
+
+(* one successful pop keeps the whole invariant *)
+Lemma pop_inv2 S n D l p :
+  aligned n l -> shaped l S -> incr (ids l) -> sinv D (ids l) (buff l) ->
+  - zlen (recs l) <= p < zlen (recs l) ->
+  exists l' item, lb_pop p l = (l', Ok item) /\ py_get (recs l) p = Some item /\
+    aligned n l' /\ shaped l' S /\ incr (ids l') /\ sinv D (ids l') (buff l') /\
+    recs l' = remove_nth (Z.to_nat (norm_index p (zlen (recs l)))) (recs l) /\
+    hdr l' = hdr l /\ logh l' = logh l /\ tree_of l' = tree_of l.
+Proof.
+  intros Hal Hsh Hin Hsi Hp.
+  destruct (py_get_in_range (recs l) p Hp) as [item Hit].
+  destruct (lb_pop_aligned n l Hal p item Hit) as (l' & E & A1 & A2 & A3 & A4 & A5 & A6).
+  destruct (py_get_some _ _ _ Hit) as (_ & HJ & _).
+  exists l', item. splits; auto.
+  - eapply shaped_pop; eauto.
+  - unfold ids. rewrite A2, remove_nth_map. now apply incr_remove_nth.
+  - unfold ids. rewrite A2, remove_nth_map, A3. apply sinv_pop; auto.
+    + now apply incr_NoDup.
+    + now rewrite zlen_map.
+Qed.
+
+Lemma pop_all_inv2 S n D : forall ps l,
+  aligned n l -> shaped l S -> incr (ids l) -> sinv D (ids l) (buff l) ->
+  StronglySorted Z.gt ps -> (forall p, In p ps -> 0 <= p < zlen (recs l)) ->
+  exists l', pop_all ps l = (l', None) /\
+    aligned n l' /\ shaped l' S /\ incr (ids l') /\ sinv D (ids l') (buff l') /\
+    recs l' = fold_left (fun acc p => remove_nth (Z.to_nat p) acc) ps (recs l) /\
+    hdr l' = hdr l /\ logh l' = logh l.
+Proof.
+  induction ps as [|p ps IH]; intros l Hal Hsh Hin Hsi Hs Hr; cbn [pop_all fold_left].
+  - eexists; splits; auto.
+  - inversion Hs as [|? ? Hs' F]; subst. rewrite Forall_forall in F.
+    assert (Hp : 0 <= p < zlen (recs l)) by (apply Hr; now left).
+    destruct (pop_inv2 S n D l p Hal Hsh Hin Hsi) as (l1 & item & E & _ & A1 & A2 & A3 & A4 & A5 & A6 & A7 & _); [lia|].
+    rewrite E. unfold norm_index in A5. replace (p <? 0) with false in A5 by lia.
+    destruct (IH l1 A1 A2 A3 A4 Hs') as (l' & E' & B1 & B2 & B3 & B4 & B5 & B6 & B7).
+    { intros q Hq. specialize (F _ Hq). assert (0 <= q < zlen (recs l)) by (apply Hr; now right).
+      rewrite A5. unfold zlen in *. rewrite remove_nth_length by lia. lia. }
+    exists l'. rewrite E'. splits; auto; congruence.
+Qed.
+
+Lemma delslice_inv2 S n D l a b st :
+  aligned n l -> shaped l S -> incr (ids l) -> sinv D (ids l) (buff l) ->
+  match st with Some 0 => False | _ => True end ->
+  let step := match st with None => 1 | Some s => s end in
+  exists l', lb_delslice a b st l = (l', Ok tt) /\
+    aligned n l' /\ shaped l' S /\ incr (ids l') /\ sinv D (ids l') (buff l') /\
+    recs l' = del_positions (slice_idx a b step (zlen (recs l))) (recs l) /\
+    hdr l' = hdr l /\ logh l' = logh l.
+Proof.
+  intros Hal Hsh Hin Hsi Hst step. unfold lb_delslice. fold step.
+  assert (Hne : step <> 0) by (subst step; destruct st as [[| |]|]; try lia; tauto).
+  replace (step =? 0) with false by lia.
+  set (ps := slice_idx a b step (zlen (recs l))).
+  assert (Hb : forall p, In p ps -> 0 <= p < zlen (recs l)).
+  { intros p Hp. eapply slice_idx_bounds; eauto. unfold zlen; lia. }
+  destruct (pop_all_inv2 S n D (sort_desc ps) l Hal Hsh Hin Hsi) as (l' & E & A1 & A2 & A3 & A4 & A5 & A6 & A7).
+  { apply sort_desc_strict. now apply slice_idx_NoDup. }
+  { intros p Hp. apply Hb. now apply sort_desc_In. }
+  rewrite E. exists l'. splits; auto.
+  rewrite A5. rewrite pop_desc_del_positions.
+  - unfold del_positions. apply drop_pos_ext. intros j _. apply sort_desc_In.
+  - apply sort_desc_strict. now apply slice_idx_NoDup.
+  - intros p Hp. apply Hb. now apply sort_desc_In.
+Qed.
+
+Lemma step_inv2 S s D o :
+  (forall infos, o = ORecord infos -> has_shape infos S) ->
+  inv2 S s D -> inv2 S (fst (step s o)) (D ++ delivered_of o (snd (step s o))).
+Proof.
+  intros HS I. destruct s as [l n]. destruct I as [Hal Hsh Hin Hsi HD]. cbn [st_lb st_next] in *.
+  destruct o as [infos|pth nms| | |i|i|a b c| |hd|g0].
+  - (* record *)
+    unfold step. cbn [st_lb st_next].
+    destruct (record_aligned (Datatypes.S (ddepth infos)) n infos l S) as (l' & E & Q1 & Q2 & Q3 & Q4 & Q5 & Q6); auto.
+    rewrite E. cbn [fst snd delivered_of]. rewrite app_nil_r.
+    assert (Hids : ids l' = ids l ++ [n]) by (unfold ids; now rewrite Q3, map_app).
+    constructor; cbn [st_lb st_next]; auto.
+    + now right.
+    + rewrite Hids. apply incr_app_last; auto. intros y Hy. eapply aligned_ids_lt; eauto.
+    + rewrite Hids, Q4. apply sinv_record; auto.
+    + intros u Hu. specialize (HD u Hu). lia.
+  - (* select *) cbn. rewrite app_nil_r. now constructor.
+  - (* stream *)
+    unfold step. cbn [st_lb st_next lb_stream fst snd].
+    destruct l as [rs bf cs h g]. cbn [recs buff chs hdr logh] in *.
+    assert (Hb : 0 <= bf <= zlen rs).
+    { destruct Hsi as (_ & Hb & _). rewrite zlen_ids in Hb. exact Hb. }
+    assert (Hcore : sinv (D ++ delivered_of OStream (text_out (lb_text bf (LB rs bf cs h g))))
+                         (ids (LB rs bf cs h g)) (zlen rs) /\
+                    forall u, In u (delivered_of OStream (text_out (lb_text bf (LB rs bf cs h g)))) -> (u < n)%nat).
+    { destruct (lb_text bf (LB rs bf cs h g)) as [[d hf]|e] eqn:E; cbn [text_out delivered_of].
+      - destruct (lb_text_ok bf (LB rs bf cs h g) d hf Hb E) as (-> & _ & _). split.
+        + replace (zlen rs) with (zlen (ids (LB rs bf cs h g))) by (apply zlen_ids).
+          apply sinv_stream; auto. now apply incr_NoDup.
+        + intros u Hu. eapply aligned_ids_lt; eauto.
+          rewrite <- (firstn_skipn (Z.to_nat bf)). apply in_or_app. now right.
+      - rewrite app_nil_r. pose proof (lb_text_err_empty n bf (LB rs bf cs h g) e Hal Hb E) as Hnil. cbn in Hnil. subst rs.
+        split; [|intros u []]. cbn. eapply sinv_stream_empty; eauto. }
+    destruct Hcore as (Hs & Hlt).
+    constructor; cbn [st_lb st_next recs buff]; auto.
+    + exact (aligned_fields n rs bf cs h g (zlen rs) h g Hal).
+    + intros u Hu. apply in_app_or in Hu as [Hu|Hu]; auto.
+  - (* print *) cbn [step fst snd st_lb]. unfold delivered_of. rewrite app_nil_r. now constructor.
+  - (* pop *)
+    unfold step. cbn [st_lb st_next]. set (p := match i with Some i => i | None => 0 end).
+    destruct (py_get (recs l) p) as [item|] eqn:Eg.
+    + destruct (py_get_some _ _ _ Eg) as (Hp & _).
+      destruct (pop_inv2 S n D l p Hal Hsh Hin Hsi Hp) as (l' & it & E & _ & A1 & A2 & A3 & A4 & _).
+      rewrite E. cbn [fst snd]. destruct it. cbn [delivered_of]. rewrite app_nil_r. now constructor.
+    + rewrite (lb_pop_out_of_range _ _ Eg). cbn [fst snd delivered_of]. rewrite app_nil_r. now constructor.
+  - (* delitem *)
+    unfold step, lb_delitem. cbn [st_lb st_next].
+    destruct (py_get (recs l) i) as [item|] eqn:Eg.
+    + destruct (py_get_some _ _ _ Eg) as (Hp & _).
+      destruct (pop_inv2 S n D l i Hal Hsh Hin Hsi Hp) as (l' & it & E & _ & A1 & A2 & A3 & A4 & _).
+      rewrite E. cbn [fst snd unit_out delivered_of]. rewrite app_nil_r. now constructor.
+    + rewrite (lb_pop_out_of_range _ _ Eg). cbn [fst snd unit_out delivered_of]. rewrite app_nil_r. now constructor.
+  - (* delslice *)
+    unfold step. cbn [st_lb st_next].
+    destruct (match c with Some 0 => true | _ => false end) eqn:Ec.
+    + assert (c = Some 0) as -> by (destruct c as [[| |]|]; congruence).
+      rewrite lb_delslice_step0. cbn [fst snd unit_out delivered_of]. rewrite app_nil_r. now constructor.
+    + destruct (delslice_inv2 S n D l a b c Hal Hsh Hin Hsi) as (l' & E & A1 & A2 & A3 & A4 & _).
+      { destruct c as [[| |]|]; auto; discriminate. }
+      rewrite E. cbn [fst snd unit_out delivered_of]. rewrite app_nil_r. now constructor.
+  - (* pickle *) cbn. rewrite app_nil_r. now constructor.
+  - (* header *)
+    cbn. rewrite app_nil_r. destruct l as [rs bf cs h g]. cbn in *. constructor; cbn; auto.
+    exact (aligned_fields n rs bf cs h g bf hd g Hal).
+  - cbn. rewrite app_nil_r. destruct l as [rs bf cs h g]. cbn in *. constructor; cbn; auto.
+    exact (aligned_fields n rs bf cs h g bf h g0 Hal).
+Qed.
+
+Lemma inv2_init S : inv2 S init_state [].
+Proof.
+  constructor; cbn.
+  - apply aligned_new.
+  - left; split; reflexivity.
+  - constructor.
+  - split; [constructor|]. split; [cbn; lia|]. intro u. cbn. tauto.
+  - intros u [].
+Qed.
+
+Lemma final_inv2 S h : forall s D,
+  uniform S h -> inv2 S s D -> inv2 S (final s h) (D ++ delivered s h).
+Proof.
+  induction h as [|o r IH]; intros s D U I; cbn [delivered].
+  - now rewrite app_nil_r.
+  - rewrite final_cons, app_assoc. apply IH.
+    + intros infos Hin. apply U. now right.
+    + apply step_inv2; auto. intros infos ->. apply U. now left.
+Qed.
+
+Lemma reach_inv2 S h :
+  uniform S h -> inv2 S (final init_state h) (delivered init_state h).
+Proof. intro U. apply (final_inv2 S h init_state [] U (inv2_init S)). Qed.
+
+(* ------------------------------------------------------------------------- *)
+(* theorem-level statements                                                    *)
+(* ------------------------------------------------------------------------- *)
+
+(* 1. records in entry order, each stored as its scalar part *)
+Lemma records_in_order h :
+  let l := st_lb (final init_state h) in
+  incr (ids l) /\
+  forall u e, In (u, e) (recs l) ->
+    exists infos, nth_error (recorded h) u = Some infos /\ e = scalars infos.
+Proof.
+  pose proof (final_inv1 h init_state [] inv1_init) as [A B C D]. cbn [app] in D. split; auto.
+Qed.
+
+Definition is_delete (o : op) : bool :=
+  match o with OPop _ | ODelItem _ | ODelSlice _ _ _ => true | _ => false end.
+
+Lemma final_no_delete h : forall s,
+  forallb (fun o => negb (is_delete o)) h = true ->
+  recs (st_lb (final s h)) =
+    recs (st_lb s) ++ combine (seq (st_next s) (length (recorded h))) (map scalars (recorded h)) /\
+  st_next (final s h) = (st_next s + length (recorded h))%nat.
+Proof.
+  induction h as [|o r IH]; intros s H.
+  - cbn. rewrite app_nil_r. split; auto.
+  - cbn [forallb] in H. apply andb_true_iff in H as [Ho Hr]. rewrite final_cons.
+    destruct (IH (fst (step s o)) Hr) as (E1 & E2). rewrite E1, E2. clear IH E1 E2.
+    destruct s as [l n]. destruct o as [infos|pth nms| | |i|i|a b c| |hd|g0]; try discriminate;
+      cbn [recorded flat_map app length map]; rewrite ?Nat.add_0_r; try (split; reflexivity).
+    + unfold step. cbn [st_lb st_next].
+      destruct (lb_record_total (S (ddepth infos)) n infos l) as (l' & E & Q1 & _); [lia|].
+      rewrite E. cbn [fst st_lb st_next]. rewrite Q1, <- app_assoc. cbn. split; [reflexivity|].
+      change (flat_map (fun o : op => match o with ORecord i => [i] | _ => [] end) r) with (recorded r). lia.
+Qed.
+
+Lemma records_all_without_delete h :
+  forallb (fun o => negb (is_delete o)) h = true ->
+  recs (st_lb (final init_state h)) =
+    combine (seq 0 (length (recorded h))) (map scalars (recorded h)).
+Proof. intro H. now destruct (final_no_delete h init_state H) as (-> & _). Qed.
+
+(* 2. select *)
+Lemma select_one nm l : lb_select [nm] l = Sel1 (column nm l).
+Proof. reflexivity. Qed.
+
+Lemma select_many names l :
+  length names <> 1%nat -> lb_select names l = SelN (map (fun nm => column nm l) names).
+Proof. destruct names as [|a [|b r]]; cbn; auto. congruence. Qed.
+
+Lemma column_spec nm l :
+  length (column nm l) = length (recs l) /\
+  forall j u e, nth_error (recs l) j = Some (u, e) -> nth_error (column nm l) j = Some (lookup nm e).
+Proof.
+  unfold column. split; [apply map_length|]. intros j u e H. now rewrite (map_nth_error _ _ _ H).
+Qed.
+
+(* 3. chapters *)
+Lemma NoDup_fst_inj {A B} (l : list (A * B)) a b b' :
+  NoDup (map fst l) -> In (a, b) l -> In (a, b') l -> b = b'.
+Proof.
+  induction l as [|[x y] r IH]; cbn; [tauto|]. intros ND [E|H] [E'|H']; inversion ND; subst.
+  - congruence.
+  - injection E as -> ->. exfalso. apply H1. apply (in_map fst) in H'. exact H'.
+  - injection E' as -> ->. exfalso. apply H2. apply (in_map fst) in H. exact H.
+  - eauto.
+Qed.
+
+Lemma aligned_find_path n : forall path l c,
+  aligned n l -> NoDup (ids l) -> find_path path l = Some c ->
+  aligned n c /\ ids c = ids l /\ flows (recs l) (recs c).
+Proof.
+  induction path as [|k r IH]; intros l c Hal ND H; cbn in H.
+  - injection H as <-. repeat split; auto. intros u e e' H1 H2 kk z Hl.
+    now rewrite <- (NoDup_fst_inj _ _ _ _ ND H1 H2).
+  - destruct (lookup k (chs l)) as [c1|] eqn:E; [|discriminate]. apply lookup_Some_In in E.
+    destruct (aligned_chapter _ _ _ _ Hal E) as (A1 & A2 & A3).
+    destruct (IH c1 c A1) as (B1 & B2 & B3); auto; [now rewrite A2|].
+    repeat split; auto; [congruence|].
+    intros u e e2 H1 H2 kk z Hl.
+    assert (Hu : In u (ids c1)) by (rewrite A2; unfold ids; apply (in_map fst) in H1; exact H1).
+    unfold ids in Hu. apply in_map_iff in Hu as ([u' e1] & Eu & H3). cbn in Eu. subst u'.
+    eapply B3; eauto.
+Qed.
+
+Lemma chapter_aligned S h path c :
+  uniform S h -> find_path path (st_lb (final init_state h)) = Some c ->
+  let l := st_lb (final init_state h) in
+  ids c = ids l /\ flows (recs l) (recs c).
+Proof.
+  intros U H. destruct (reach_inv2 S h U) as [Hal _ Hin _ _].
+  destruct (aligned_find_path _ path _ c Hal (incr_NoDup _ Hin) H) as (_ & A & B). auto.
+Qed.
+
+Lemma chapters_shaped S h : uniform S h -> shaped (st_lb (final init_state h)) S.
+Proof. intro U. now destruct (reach_inv2 S h U). Qed.
+
+(* a dictionary-valued entry goes to the chapter of that name *)
+Lemma record_feeds_chapter uid infos l l' k d :
+  NoDup (map fst infos) -> In (k, VDict d) infos ->
+  lb_record (S (ddepth infos)) uid infos l = Some l' ->
+  exists c', lookup k (chs l') = Some c' /\
+    recs c' = recs (chapter_of k (chs l)) ++ [(uid, scalars (dict_update d (inject (scalars infos))))].
+Proof.
+  intros ND Hin E. apply lb_record_inv in E as (f & cs' & Ef & EL & ->). injection Ef as <-.
+  destruct (record_loop_spec _ _ _ _ ND EL) as (L & _ & _). cbn [chs].
+  rewrite L, (In_lookup _ _ _ ND Hin).
+  destruct (lb_record_total (ddepth infos) uid (dict_update d (inject (scalars infos))) (chapter_of k (chs l)))
+    as (c' & Ec & Q & _).
+  { eapply sub_depth; eauto. }
+  exists c'. split; auto.
+Qed.
+
+(* 4. deletion *)
+Lemma state_eta s : s = mkstate (st_lb s) (st_next s).
+Proof. destruct s; reflexivity. Qed.
+
+Lemma delete_index_exact S h i :
+  uniform S h ->
+  let s := final init_state h in
+  let l := st_lb s in
+  let n := zlen (recs l) in
+  (- n <= i < n ->
+     exists l' item, py_get (recs l) i = Some item /\
+       step s (ODelItem i) = (mkstate l' (st_next s), ONone) /\
+       step s (OPop (Some i)) = (mkstate l' (st_next s), OItem (fst item) (snd item)) /\
+       recs l' = remove_nth (Z.to_nat (norm_index i n)) (recs l) /\
+       aligned (st_next s) l') /\
+  (~ (- n <= i < n) ->
+     step s (ODelItem i) = (s, OErr IndexError) /\ step s (OPop (Some i)) = (s, OErr IndexError)).
+Proof.
+  intros U. cbn zeta. destruct (reach_inv2 S h U) as [Hal Hsh Hin Hsi _].
+  destruct (final init_state h) as [l n0]. cbn [st_lb st_next] in *.
+  split.
+  - intro Hr.
+    destruct (pop_inv2 S _ _ l i Hal Hsh Hin Hsi Hr) as (l' & item & E & Hg & A1 & _ & _ & _ & A5 & _).
+    exists l', item. unfold step, lb_delitem. cbn [st_lb st_next]. rewrite E. destruct item.
+    split; [exact Hg|]. split; [reflexivity|]. split; [reflexivity|]. split; [exact A5|exact A1].
+  - intro Hr. apply py_get_none in Hr. unfold step, lb_delitem. cbn [st_lb st_next].
+    rewrite (lb_pop_out_of_range _ _ Hr). split; reflexivity.
+Qed.
+
+Lemma pop_default s : step s (OPop None) = step s (OPop (Some 0)).
+Proof. reflexivity. Qed.
+
+Lemma delete_slice_exact S h a b st :
+  uniform S h ->
+  let s := final init_state h in
+  let l := st_lb s in
+  (match st with Some 0 => False | _ => True end ->
+     exists l', step s (ODelSlice a b st) = (mkstate l' (st_next s), ONone) /\
+       recs l' = del_positions (slice_idx a b (match st with None => 1 | Some x => x end) (zlen (recs l))) (recs l) /\
+       aligned (st_next s) l') /\
+  (st = Some 0 -> step s (ODelSlice a b st) = (s, OErr ValueError)).
+Proof.
+  intros U. cbn zeta. destruct (reach_inv2 S h U) as [Hal Hsh Hin Hsi _].
+  destruct (final init_state h) as [l n0]. cbn [st_lb st_next] in *.
+  split.
+  - intro Hst. destruct (delslice_inv2 S _ _ l a b st Hal Hsh Hin Hsi Hst) as (l' & E & A1 & _ & _ & _ & A5 & _).
+    exists l'. unfold step. cbn [st_lb st_next]. rewrite E. split; [reflexivity|]. split; [exact A5|exact A1].
+  - intros ->. unfold step. cbn [st_lb st_next]. rewrite lb_delslice_step0. reflexivity.
+Qed.
+
+(* 5. stream *)
+Lemma stream_once S h :
+  uniform S h ->
+  NoDup (delivered init_state h) /\
+  forall u, In u (delivered init_state h) -> (u < length (recorded h))%nat.
+Proof.
+  intro U. destruct (reach_inv2 S h U) as [_ _ _ (ND & _) HD].
+  pose proof (final_inv1 h init_state [] inv1_init) as [A _ _ _]. cbn [app] in A.
+  split; auto. intros u Hu. rewrite <- A. auto.
+Qed.
+
+Lemma stream_complete S h :
+  uniform S h ->
+  forall u, In u (ids (st_lb (final init_state (h ++ [OStream])))) ->
+            In u (delivered init_state (h ++ [OStream])).
+Proof.
+  intros U u Hu.
+  assert (U' : uniform S (h ++ [OStream])).
+  { intros infos Hin. apply in_app_or in Hin as [Hin|[Hin|[]]]; [auto|discriminate]. }
+  destruct (reach_inv2 S _ U') as [_ _ _ (_ & _ & Hiff) _].
+  apply Hiff. rewrite final_app. cbn [final fold_left]. unfold step at 1. cbn [lb_stream fst st_lb buff].
+  rewrite final_app in Hu. cbn [final fold_left] in Hu. unfold step in Hu at 1. cbn [lb_stream fst st_lb] in Hu.
+  set (l := st_lb (fold_left (fun s o => fst (step s o)) h init_state)) in *.
+  change (ids (LB (recs l) (zlen (recs l)) (chs l) (hdr l) (logh l))) with (ids l) in *.
+  rewrite <- zlen_ids. unfold zlen. rewrite Nat2Z.id, firstn_all. exact Hu.
+Qed.
+
+Lemma stream_delivers_pending S h d hf :
+  uniform S h ->
+  let s := final init_state h in
+  snd (step s OStream) = OText d hf ->
+  d = skipn (Z.to_nat (buff (st_lb s))) (ids (st_lb s)) /\ hf = (buff (st_lb s) =? 0) && logh (st_lb s).
+Proof.
+  intros U s H. destruct (reach_inv2 S h U) as [_ _ _ (_ & Hb & _) _]. fold s in Hb.
+  unfold step in H. cbn [lb_stream snd] in H.
+  destruct (lb_text (buff (st_lb s)) (st_lb s)) as [[d' hf']|e] eqn:E; cbn in H; [|discriminate].
+  injection H as <- <-. rewrite zlen_ids in Hb.
+  destruct (lb_text_ok _ _ _ _ Hb E) as (A & B & _). auto.
+Qed.
+
+(* a stream call on a logbook that holds records never raises (nothing is lost) *)
+Lemma stream_no_loss S h :
+  uniform S h ->
+  let s := final init_state h in
+  recs (st_lb s) <> [] -> exists d hf, snd (step s OStream) = OText d hf.
+Proof.
+  intros U s Hne. destruct (reach_inv2 S h U) as [Hal _ _ (_ & Hb & _) _]. fold s in Hal, Hb.
+  rewrite zlen_ids in Hb. unfold step. cbn [lb_stream snd].
+  rewrite (lb_text_aligned _ _ _ Hal Hne Hb). cbn. eauto.
+Qed.
+
+(* 6. header *)
+Definition never_drained (h : list op) : Prop :=
+  forall p q, h = p ++ OStream :: q -> (1 <= headers init_state p)%nat ->
+    exists u, In u (delivered init_state p) /\ In u (ids (st_lb (final init_state p))).
+
+Lemma header_partial S h :
+  uniform S h -> never_drained h -> (headers init_state h <= 1)%nat.
+Proof.
+  induction h as [|o p IH] using rev_ind; intros U ND; [cbn; lia|].
+  assert (Up : uniform S p) by (intros infos Hin; apply U; apply in_or_app; auto).
+  assert (NDp : never_drained p).
+  { intros p1 q1 E Hh. apply (ND p1 (q1 ++ [o])); auto. rewrite E, <- app_assoc. reflexivity. }
+  specialize (IH Up NDp). rewrite headers_app. cbn [headers]. rewrite Nat.add_0_r.
+  destruct (headers init_state p) as [|[|k]] eqn:Eh; [|clear IH|lia].
+  - unfold header_of. destruct o; try lia. destruct (snd _); try lia. destruct header; lia.
+  - destruct o; cbn [header_of]; try lia.
+    destruct (ND p [] eq_refl) as (u & HuD & HuI); [lia|].
+    destruct (reach_inv2 S p Up) as [_ _ _ (_ & Hb & Hiff) _].
+    assert (Hf : In u (firstn (Z.to_nat (buff (st_lb (final init_state p)))) (ids (st_lb (final init_state p)))))
+      by (apply Hiff; auto).
+    assert (Hpos : buff (st_lb (final init_state p)) > 0).
+    { destruct (Z.to_nat (buff (st_lb (final init_state p)))) eqn:E; [destruct Hf|lia]. }
+    destruct (snd (step (final init_state p) OStream)) eqn:Es; try lia.
+    destruct (stream_delivers_pending S p _ _ Up Es) as (_ & ->).
+    replace (buff (st_lb (final init_state p)) =? 0) with false by lia. cbn. lia.
+Qed.
+
+(* 7. pickle *)
+Lemma pickle_identity s : step s OPickle = (s, ONone).
+Proof. reflexivity. Qed.
+
+(* ------------------------------------------------------------------------- *)
+(* statistics                                                                  *)
+(* ------------------------------------------------------------------------- *)
+Section StatsLemmas.
+  Context {A B C : Type}.
+  Implicit Types (s : stats A B C) (m : mstats A B C).
+
+  Lemma st_compile_spec s data :
+    st_compile s data = map (fun nf => (fst nf, snd nf (map (s_key s) data))) (s_funs s).
+  Proof. reflexivity. Qed.
+
+  Lemma lookup_map_snd {V W} (f : V -> W) (d : list (name * V)) k :
+    lookup k (map (fun kv => (fst kv, f (snd kv))) d) = option_map f (lookup k d).
+  Proof. induction d as [|[k0 v] r IH]; cbn; auto. destruct (k =? k0); auto. Qed.
+
+  Lemma compile_lookup s data nm :
+    lookup nm (st_compile s data) = option_map (fun f => f (map (s_key s) data)) (lookup nm (s_funs s)).
+  Proof. unfold st_compile. apply (lookup_map_snd (fun f => f (map (s_key s) data))). Qed.
+
+  Lemma compile_names s data : map fst (st_compile s data) = map fst (s_funs s).
+  Proof. unfold st_compile. rewrite map_map. reflexivity. Qed.
+
+  Lemma compile_register_same {Args} s nm (f : Args -> list B -> C) a data :
+    lookup nm (st_compile (st_register nm f a s) data) = Some (f a (map (s_key s) data)).
+  Proof. rewrite compile_lookup. cbn. now rewrite lookup_dict_set_eq. Qed.
+
+  Lemma compile_register_other {Args} s nm nm' (f : Args -> list B -> C) a data :
+    nm' <> nm ->
+    lookup nm' (st_compile (st_register nm f a s) data) = lookup nm' (st_compile s data).
+  Proof. intro N. rewrite !compile_lookup. cbn. now rewrite lookup_dict_set_neq. Qed.
+
+  Lemma register_names {Args} s nm (f : Args -> list B -> C) a k :
+    In k (map fst (s_funs (st_register nm f a s))) <-> k = nm \/ In k (map fst (s_funs s)).
+  Proof. cbn. apply dict_set_In_names. Qed.
+
+  Lemma register_NoDup {Args} s nm (f : Args -> list B -> C) a :
+    NoDup (map fst (s_funs s)) -> NoDup (map fst (s_funs (st_register nm f a s))).
+  Proof. cbn. apply dict_set_NoDup. Qed.
+
+  Lemma ms_compile_lookup m data nm :
+    lookup nm (ms_compile m data) = option_map (fun s => st_compile s data) (lookup nm m).
+  Proof. unfold ms_compile. apply (lookup_map_snd (fun s => st_compile s data)). Qed.
+
+  Lemma ms_compile_names m data : map fst (ms_compile m data) = map fst m.
+  Proof. unfold ms_compile. rewrite map_map. reflexivity. Qed.
+
+  Lemma ms_register_lookup {Args} m nm (f : Args -> list B -> C) a k :
+    lookup k (ms_register nm f a m) = option_map (st_register nm f a) (lookup k m).
+  Proof. unfold ms_register. apply (lookup_map_snd (st_register nm f a)). Qed.
+End StatsLemmas.
